@@ -212,7 +212,9 @@ func runOne(f *fixture, budget int, c *mc.Chooser) (v *vcs, err error, panicked 
 		CommitRetries: budget,
 		OutDir:        "out",
 	}
-	ctx := output.NewContext(f.auth.Ctx(), &output.Options{Quiet: true})
+	// the global --keep_going option is part of the explored space (choice 0 = off)
+	keepGoing := c.Choose(2, "option:keep_going") == 1
+	ctx := output.NewContext(f.auth.Ctx(), &output.Options{Quiet: true, KeepGoing: keepGoing})
 	ctx = endorse.NewContext(ctx, ec)
 	p, val := mc.Guard(func() { err = endorse.VirtualFirmware(ctx) })
 	if p {
@@ -224,7 +226,7 @@ func runOne(f *fixture, budget int, c *mc.Chooser) (v *vcs, err error, panicked 
 
 func main() {
 	r := mc.NewRun("C14")
-	r.Rule("E1 full choice tree: per attempt {concurrent writer before the attempt: no/yes} x GetChangeOps{ok,retriable,permanent} x each ReadFile/WriteOrCreateFiles/SetBinaryWritable{ok,retriable,permanent} x TryCommit{ok,retriable,permanent,concurrent-writer-conflict}; for every retry budget; non-trivial = distinct (budget, per-attempt outcome sequence) with at least one injected failure or concurrent writer")
+	r.Rule("E1 full choice tree: --keep_going off/on x per attempt {concurrent writer before the attempt: no/yes} x GetChangeOps{ok,retriable,permanent} x each ReadFile/WriteOrCreateFiles/SetBinaryWritable{ok,retriable,permanent} x TryCommit{ok,retriable,permanent,concurrent-writer-conflict}; for every retry budget; non-trivial = distinct (budget, per-attempt outcome sequence) with at least one injected failure or concurrent writer")
 	r.Assume("the back end reports a commit against a moved head as a retriable conflict (scripted double does)")
 	r.Assume("'retries-plus-one' is read as max(budget,0)+1 for negative budgets")
 	auth, err := fx.NewAuthority(fx.T0, "c14")
@@ -309,6 +311,9 @@ func check(r *mc.Run, f *fixture, budget int, c *mc.Chooser, v *vcs, err error, 
 		att := -1
 		cur := ""
 		for _, p := range c.Points {
+			if strings.HasPrefix(p.Label, "option:") {
+				continue
+			}
 			if p.Label == "concurrent-writer-before-attempt" {
 				if att >= 0 {
 					kinds = append(kinds, cur)
